@@ -46,6 +46,8 @@ def records_for(inst):
     n = len(inst["u"])
     try:
         ds, objs, skw = ic.build(inst)
+        if inst.get("dup"):  # the SAME linear-object instance listed at two positions (two parameter ranges, one object)
+            objs[inst["dup"][1]] = objs[inst["dup"][0]]
         M_list = []
         for o, lo in zip(inst["objs"], objs):
             Mi = _to_int(lo.mapping_matrix, ic.obj_scale(o), "M")
@@ -107,6 +109,8 @@ def records_for(inst):
         try:
             ds2, objs2, _ = ic.build(inst2)
             st = aa.SettingsInversion(use_w_tilde=True, **skw)
+            if inst2.get("dup"):
+                objs2[inst2["dup"][1]] = objs2[inst2["dup"][0]]
             inv = aa.Inversion(dataset=ds2, linear_obj_list=objs2, settings=st, preloads=aa.Preloads(w_tilde=ds.w_tilde, use_w_tilde=True))
             r["cls"] = type(inv).__name__
             Bm = _to_int(np.asarray(inv.operated_mapping_matrix) * cs[None, :], 2.0 ** (-ke), "B")
@@ -232,6 +236,12 @@ def run(ctx):
     # so nothing but an exact power of four changes - absolute thresholds on weights or overlaps are not scale free
     for k_, inst_ in enumerate(small):
         inst_["noise_shift"] = int([0, 0, 20, -10, 0, 10][k_ % 6])
+    # lists in which one linear-object INSTANCE appears at two positions (an appended second listing of an earlier entry)
+    for k_, inst_ in enumerate(small):
+        if k_ % 5 == 2 and len(inst_["objs"]) <= 2:
+            j_ = k_ % len(inst_["objs"])
+            inst_["objs"].append(json.loads(json.dumps(inst_["objs"][j_])))
+            inst_["dup"] = [j_, len(inst_["objs"]) - 1]
     n_multi = 24 if quick else 600
     small += [ic.random_instance(rng, H=7, W=7, interior=3, layouts=("mmm", "mfmm", "mmfm", "mmmm", "fmmm")) for _ in range(n_multi)]
     large = [ic.random_instance(rng, H=9, W=9, interior=5, max_sub=3,
